@@ -840,6 +840,11 @@ def main():
         gens += rs2lean_adapters.generators(args.repo)
     except ImportError:
         pass
+    try:
+        import rs2lean_dispatch
+        gens += rs2lean_dispatch.generators(args.repo)
+    except ImportError:
+        pass
     for name, g in gens:
         try:
             content = g(world)
